@@ -43,12 +43,26 @@ func Damage(raw []byte, integ string) []byte {
 	out := append([]byte{}, raw...)
 	switch integ {
 	case "checksum":
-		// change the last checksum digit
+		// three shapes of a CheckSum that does not agree with the content, chosen by the content itself (so that a scenario is
+		// reproducible and all shapes occur): another last digit; the right value plus 256 (equal modulo 256, still three
+		// digits); the right three digits behind a further digit
+		v := 0
+		for _, b := range raw {
+			v += int(b)
+		}
 		i := len(out) - 2
-		if out[i] == '9' {
-			out[i] = '0'
-		} else {
-			out[i]++
+		switch v % 3 {
+		case 0:
+			if out[i] == '9' {
+				out[i] = '0'
+			} else {
+				out[i]++
+			}
+		case 1:
+			n, _ := strconv.Atoi(string(out[i-2 : i+1]))
+			copy(out[i-2:], []byte(fmt.Sprintf("%03d", n+256)))
+		case 2:
+			out = append(append(append([]byte{}, raw[:i-2]...), '1'), raw[i-2:]...)
 		}
 	case "bodylength":
 		// rewrite 9=<n> as 9=<n+1> and recompute the checksum so that only the length is wrong
@@ -89,7 +103,7 @@ type Action struct {
 	// NumTxt: the text of the unparsable numeric field (Sq / Integ = "nonnum"); "" = letters.  With Integ = "nonnum" it replaces
 	// the value of the message's own numeric field (HeartBtInt of a Logon, BeginSeqNo of a ResendRequest) where there is one
 	NumTxt string `json:"numTxt"`
-	// Extra (5, 6: look-alike tags 1035=A / 1034=1 134=77 ahead of the genuine MsgType / MsgSeqNum field): a message that means the same written differently: 1 = a field the library does not know (9999) at the end of the
+	// Extra (5, 6: look-alike tags 1035=A / 1034=1 134=77 ahead of the genuine MsgType / MsgSeqNum field; 7, 8: 355=5 / 350=A 340=1 349=77 likewise): a message that means the same written differently: 1 = a field the library does not know (9999) at the end of the
 	// body, 2 = the same inside the header, 3 = TargetCompID before SenderCompID, 4 = SendingTime before MsgSeqNum
 	Extra int `json:"extra"`
 	// Omit: a Logon that lacks EncryptMethod ("enc"), HeartBtInt ("hb") or both ("both"); for the specification the same as an
@@ -178,8 +192,13 @@ func Inbound(a *Action, peerID, ourID string, ts string) []byte {
 			body = append(body, F(strconv.Itoa(a.B), strconv.Itoa(a.E)))
 		}
 	case "unknown":
-		ty = "ZZ"
+		// a type the session has no meaning for - also one that differs from an administrative type only by case or by a further
+		// character ("a" is QuoteStatusRequest, "A" is Logon), carrying what a Logon would carry
+		ty = []string{"ZZ", "a", "AA", "a", "5A", "A0"}[((a.Seq%6)+6)%6]
 		body = []Field{F("58", "hello")}
+		if ty != "ZZ" {
+			body = []Field{F("98", "0"), F("108", "30"), F("553", "user"), F("554", "good"), F("112", "look")}
+		}
 	default:
 		panic("not an inbound action: " + a.A)
 	}
@@ -189,6 +208,13 @@ func Inbound(a *Action, peerID, ourID string, ts string) []byte {
 		fields = []Field{F("1035", "A"), F("35", ty), F("49", peerID), F("56", ourID)}
 		if a.Extra == 6 {
 			fields = []Field{F("35", ty), F("1034", "1"), F("134", "77"), F("49", peerID), F("56", ourID)}
+		}
+	}
+	if a.Extra == 7 || a.Extra == 8 {
+		// longer tags that BEGIN with the digits of MsgType / MsgSeqNum, with plausible values, ahead of the genuine fields
+		fields = []Field{F("355", "5"), F("35", ty), F("49", peerID), F("56", ourID)}
+		if a.Extra == 8 {
+			fields = []Field{F("350", "A"), F("35", ty), F("340", "1"), F("349", "77"), F("49", peerID), F("56", ourID)}
 		}
 	}
 	if a.Extra == 3 {
